@@ -1,7 +1,11 @@
 #!/usr/bin/env python3
 """Regression over every seeded change kept under seeded/.
 
-  tools/seedall.py [--only <prefix>] [--tier quick]
+  tools/seedall.py [--only <prefix>] [--tier quick] [--shard i/n]
+
+--shard i/n takes every n-th change starting at the i-th (0-based), works in its own box
+(/var/tmp/seedbox<i>) and writes seeded/RESULTS.<i>.json, so that n shards can run side by side;
+`tools/seedall.py --merge` joins the shard files into seeded/RESULTS.json.
 
 For each seeded/<id>/ applies patch.diff to /repo, runs the registered check of the change's own
 property, restores /repo, and writes seeded/RESULTS.json (id -> exit, violations, first judged
@@ -28,7 +32,18 @@ def sh(cmd, **kw):
 BOX = "/var/tmp/seedbox"
 
 
+def shard_of(args):
+    if "--shard" in args:
+        i, n = args[args.index("--shard") + 1].split("/")
+        return int(i), int(n)
+    return None
+
+
 def sandbox(args):
+    global BOX
+    sh_ = shard_of(args)
+    if sh_:
+        BOX = "/var/tmp/seedbox%d" % sh_[0]
     """Re-execute inside a mount namespace over copies of /repo and /verif."""
     os.makedirs(BOX, exist_ok=True)
     for src, dst, extra in (("/repo/", BOX + "/repo/", ["--exclude", "target"]),
@@ -38,14 +53,29 @@ def sandbox(args):
     inner = ("mount --bind %s/repo /repo && mount --bind %s/verif /verif && cd /verif && "
              "exec python3 tools/seedall.py --inner %s" % (BOX, BOX, " ".join(args)))
     rc = subprocess.call(["unshare", "-m", "sh", "-c", inner])
-    res = os.path.join(BOX, "verif", "seeded", "RESULTS.json")
+    name = "RESULTS.%d.json" % sh_[0] if sh_ else "RESULTS.json"
+    res = os.path.join(BOX, "verif", "seeded", name)
     if os.path.exists(res):
-        subprocess.check_call(["cp", res, os.path.join(VERIF, "seeded", "RESULTS.json")])
+        subprocess.check_call(["cp", res, os.path.join(VERIF, "seeded", name)])
     return rc
+
+
+def merge():
+    import glob
+    out = {}
+    for f in sorted(glob.glob(os.path.join(VERIF, "seeded", "RESULTS.[0-9]*.json"))):
+        out.update(json.load(open(f)))
+        os.remove(f)
+    json.dump(out, open(os.path.join(VERIF, "seeded", "RESULTS.json"), "w"), indent=1, sort_keys=True)
+    missed = sorted(k for k, v in out.items() if v.get("exit") != 1 or not v.get("violations"))
+    print("%d changes, missed: %s" % (len(out), missed or "none"))
+    return 0
 
 
 def main():
     args = sys.argv[1:]
+    if "--merge" in args:
+        return merge()
     if "--inner" in args:
         args.remove("--inner")
     elif "--no-sandbox" in args:
@@ -62,10 +92,13 @@ def main():
     if st.strip():
         print("refusing: /repo has uncommitted changes:\n" + st)
         return 2
-    res_path = os.path.join(VERIF, "seeded", "RESULTS.json")
+    sh_ = shard_of(args)
+    res_path = os.path.join(VERIF, "seeded", "RESULTS.%d.json" % sh_[0] if sh_ else "RESULTS.json")
     results = json.load(open(res_path)) if os.path.exists(res_path) else {}
     ids = sorted(d for d in os.listdir(os.path.join(VERIF, "seeded"))
                  if os.path.isdir(os.path.join(VERIF, "seeded", d)))
+    if sh_:
+        ids = ids[sh_[0]::sh_[1]]
     missed = []
     for sid in ids:
         if only and not sid.startswith(only):
